@@ -11,6 +11,7 @@ import re
 import mir as M
 
 CHAR, BYTE = "char-index", "byte-offset"
+MID = "displaced-byte-offset"   # a byte offset moved by a constant of 2 or more / halved: need not be a character boundary
 
 ENUM_CHARS = re.compile(r"Enumerate<std::str::Chars")
 CHAR_INDICES = re.compile(r"CharIndices")
@@ -19,6 +20,9 @@ STR_INDEX = re.compile(r"ops::Index<I> for str>::index$|<std::string::String as 
 PASS_FIRST = re.compile(r"IntoIterator>::into_iter$|Iterator::enumerate$|<impl \[T\]>::iter$|Vec::<T, A>::iter$|Deref>::deref$|clone::Clone>::clone$|Clone::clone$|Iterator::copied$|Iterator::cloned$|Option::<T>::unwrap$|Option::<&T>::copied$|Iterator::rev$|<impl \[T\]>::last$|<impl \[T\]>::first$|<impl \[T\]>::get$|Index<I>>::index$|HashMap::<K, V, S, A>::get$|Iterator::skip$|Iterator::take$")
 ENUM_OTHER = re.compile(r"Enumerate<")
 PUSH = re.compile(r"Vec::<T, A>::push$|Vec::<T, A>::insert$|HashSet::<T, S, A>::insert$|VecDeque::<T, A>::push_back$")
+MINMAX = re.compile(r"cmp::Ord::min$|cmp::Ord::max$|cmp::min$|cmp::max$|cmp::Ord::clamp$")
+STEP_CALLS = re.compile(r"::(saturating|wrapping|checked|overflowing)_(add|sub)$")
+BOUNDARY_CALLS = re.compile(r"is_char_boundary$|floor_char_boundary$|ceil_char_boundary$")
 MAP_INSERT = re.compile(r"HashMap::<K, V, S, A>::insert$")
 
 
@@ -171,8 +175,12 @@ class UnitAnalysis:
                     us = self.operand_units(fn, rv[2]) if isinstance(rv[2], list) else frozenset()
                 elif k == "bin":
                     op = rv[1]
-                    if op in ("Add", "AddO", "Sub", "SubO"):
+                    if op in ("Add", "AddO", "Sub", "SubO", "AddUnchecked", "SubUnchecked"):
                         us = self.operand_units(fn, rv[2]) | self.operand_units(fn, rv[3])
+                        if BYTE in us and any(self.big_const(o) for o in (rv[2], rv[3])):
+                            us |= frozenset({MID})
+                    elif op in ("Div", "Shr", "ShrUnchecked") and BYTE in self.operand_units(fn, rv[2]):
+                        us = frozenset({MID})   # half of a position / a midpoint
                     # Mul/Div/Rem/compare results are not positions
                 elif k == "agg":
                     kind = rv[1]
@@ -241,10 +249,27 @@ class UnitAnalysis:
             u = self.operand_units(fn, args[2])
             self.taint_pointee(fn, args[0], u)
             return
+        if MINMAX.search(name) and args:
+            u = frozenset()
+            for a in args:
+                u |= self.operand_units(fn, a)
+            self.add(dkey, u)
+            return
+        if STEP_CALLS.search(name) and len(args) == 2:
+            u = self.operand_units(fn, args[0]) | self.operand_units(fn, args[1])
+            if BYTE in u and self.big_const(args[1]):
+                u |= frozenset({MID})
+            self.add(dkey, u)
+            self.add(("local", fn["id"], dest["l"], 0), u)   # checked_/overflowing_ forms: payload / first field
+            return
         if PASS_FIRST.search(name) and args:
             u = self.operand_units(fn, args[0])
             self.add(dkey, u)
             return
+
+    @staticmethod
+    def big_const(op):
+        return op[0] == "const" and isinstance(op[1].get("val"), int) and op[1]["val"] >= 2
 
     def taint_pointee(self, fn, op, us):
         """`&mut place` passed as receiver: the place's locations get the units"""
@@ -294,6 +319,12 @@ class UnitAnalysis:
                     if CHAR in u:
                         self.sinks.append({"kind": "str-sliced-by-char-index", "fn": fn["name"], "op": "index", "where": f"{file}:{bb['term']['line']}",
                                            "left": sorted(u), "right": []})
+                    elif MID in u and not re.search(r"<impl str>::get$", t[1].get("def") or "") and "__action" not in fn["name"]:
+                        # panicking forms only (`get` answers None); a function that consults the character boundaries
+                        # itself is left undecided
+                        checked = any(BOUNDARY_CALLS.search(t2[1].get("def") or "") or CHAR_INDICES.search(t2[1].get("inst") or "") for _, t2 in M.calls_in(fn))
+                        self.sinks.append({"kind": "str-sliced-at-displaced-offset" + (":boundary-consulted" if checked else ""), "fn": fn["name"], "op": "index",
+                                           "where": f"{file}:{bb['term']['line']}", "left": sorted(u), "right": []})
         return self.sinks
 
     def sources(self):
